@@ -76,7 +76,7 @@ package mhprimary
 // Flush: concrete effects; the ghost $pending flag of the PrimaryStorage view is abstract (GAP-2).
 //@ func (cp *MultihashPrimary) Flush() (work types.Work, err error)  property C03
 //@   preserves cp
-//@   requires @record-size-limit forall i int :: 0 <= i && i < len(cp.nextPool.blocks) ==> len(cp.nextPool.blocks[i].key) + len(cp.nextPool.blocks[i].value) < (1 << 31)
+//@   local requires @record-size-limit forall i int :: 0 <= i && i < len(cp.nextPool.blocks) ==> len(cp.nextPool.blocks[i].key) + len(cp.nextPool.blocks[i].value) < (1 << 31)
 //@   modifies cp.curPool, cp.nextPool, cp.outstandingWork, cp.file, cp.fileNum, cp.length, cp.file.$open
 //@   abstract gap GAP-2: pools+files implement the ghost primary records
 //@   abstract modifies PS(cp).$pending
@@ -91,7 +91,7 @@ package mhprimary
 //@ func (mp *MultihashPrimary) Close() (err error)  property C02 C17
 //@   exclusive Close runs after all users of the primary have stopped (Store.Close contract, C17)
 //@   preserves mp
-//@   requires @record-size-limit forall i int :: 0 <= i && i < len(mp.nextPool.blocks) ==> len(mp.nextPool.blocks[i].key) + len(mp.nextPool.blocks[i].value) < (1 << 31)
+//@   local requires @record-size-limit forall i int :: 0 <= i && i < len(mp.nextPool.blocks) ==> len(mp.nextPool.blocks[i].key) + len(mp.nextPool.blocks[i].value) < (1 << 31)
 //@   modifies fp(FC), mp.closed, chan(mp.gc.stop), chan(mp.gc.done), mp.curPool, mp.nextPool, mp.outstandingWork, mp.file, mp.fileNum, mp.length, PS(mp).$pending
 //@   assert at before call mhprimary.MultihashPrimary.Flush#0: @C17-stop-before-flush old(mp.gc) != nil ==> closed(mp.gc.stop) && waited(mp.gc.done)
 //@   assert at before call (*os.File).Close: @C17-flush-before-close event("call:mhprimary.MultihashPrimary.Flush") == 1
